@@ -71,8 +71,15 @@ def update_operands_copied(tree):
     if loop is None or not loop.body:
         return False
     st = loop.body[0]
+    # the copy is taken from `update_document`, an alias of the update as given that is bound
+    # once before the loop and never assigned again
+    f = _func(tree, '_update', 'Collection')
+    binds = [n for n in ast.walk(f) if isinstance(n, ast.Assign) and len(n.targets) == 1
+             and _src(n.targets[0]) == 'update_document']
+    if len(binds) != 1 or _src(binds[0].value) != 'document' or any(binds[0] is n for n in ast.walk(loop)):
+        return False
     return isinstance(st, ast.Assign) and len(st.targets) == 1 and _src(st.targets[0]) == 'document' \
-        and _is_call(st.value, PATCH) and _src(st.value.args[0]) == 'document'
+        and _is_call(st.value, PATCH) and _src(st.value.args[0]) == 'update_document'
 
 
 def update_doc_copied(tree):
